@@ -62,24 +62,33 @@ def decSched? : List String → Option Sched
            srcFail := srcFail == "T", aclose, ropen, rtrunc, rclose, unlink }
   | _ => none
 
+def decErr? : String → Option IOErr
+  | "enospc" => some .enospc | "eio" => some .eio | "eacces" => some .eacces | "eperm" => some .eperm
+  | "enoent" => some .enoent | "eintr" => some .eintr | "eagain" => some .eagain
+  | "etimedout" => some .etimedout | "ioerror" => some .ioerror
+  | "kbint" => some .keyboardInterrupt | "cancelled" => some .cancelled | "sysexit" => some .systemExit
+  | "memory" => some .memoryError | "exception" => some .exception
+  | _ => none
+
 def decKind? : String → Option StepKind
   | "startTrunc" => some .startTrunc
   | "startKeep" => some .startKeep
   | "append" => some .append
   | _ => none
 
-/-- `<kind> <target> <topen> <tclose> <15 schedule tokens>` per step -/
+/-- `<kind> <target> <error class> <topen> <tclose> <15 schedule tokens>` per step -/
 def decSteps? : Nat → List String → Option (List Step)
   | 0, [] => some []
   | 0, _ => none
-  | n + 1, kind :: target :: topen :: tclose :: rest => do
+  | n + 1, kind :: target :: err :: topen :: tclose :: rest => do
     let kind ← decKind? kind
     let target ← decList? target
+    let err ← decErr? err
     let topen ← decOut? topen
     let tclose ← decOut? tclose
     let sched ← decSched? (rest.take 15)
     let more ← decSteps? n (rest.drop 15)
-    pure ({ kind, target, topen, tclose, sched } :: more)
+    pure ({ kind, target, topen, tclose, sched, err } :: more)
   | _, _ => none
 
 /-- `<name> <content>` pairs -/
@@ -115,12 +124,6 @@ def handleLife (toks : List String) : String :=
       | _ => "bad-files"
     | _, _ => "bad-arg"
   | _ => "bad-arg"
-
-def decErr? : String → Option IOErr
-  | "enospc" => some .enospc | "eio" => some .eio | "eacces" => some .eacces | "eperm" => some .eperm
-  | "enoent" => some .enoent | "eintr" => some .eintr | "eagain" => some .eagain
-  | "etimedout" => some .etimedout | "ioerror" => some .ioerror
-  | _ => none
 
 def handle : List String → String
   | "life" :: toks => handleLife toks
